@@ -1,5 +1,6 @@
 mod extract;
 mod irgen;
+mod dynval;
 mod ops;
 mod run;
 mod util;
@@ -39,6 +40,10 @@ fn main() {
                 "C06" => run::finish(ops::c06::cases(seed, tier, false), &driver, &out, seed, tier, ops::c06::RULE_SERVER, serde_json::json!({})),
                 "C18" => run::finish(ops::c06::cases(seed, tier, true), &driver, &out, seed, tier, ops::c06::RULE_CLIENT, serde_json::json!({})),
                 "C08" => run::finish(ops::c08::cases(seed, tier), &driver, &out, seed, tier, ops::c08::RULE, serde_json::json!({})),
+                "C01" => {
+                    let (cs, extra) = ops::c01::cases(seed, tier);
+                    run::finish(cs, &driver, &out, seed, tier, ops::c01::RULE, extra)
+                }
                 "C07" => run::finish(ops::c07::cases(seed, tier), &driver, &out, seed, tier, ops::c07::RULE, serde_json::json!({})),
                 _ => Err(format!("unknown property {}", prop)),
             };
